@@ -58,6 +58,21 @@ def skipLoop (σ : Nat → Status) : Nat → Nat → List (Nat × Status) → Ou
 
 def skipSearch (σ : Nat → Status) (lo hi : Nat) : Outcome := skipLoop σ (hi - lo) lo []
 
+/-- `MinFlowDecomp.solve` / `MinFlowDecompCycles.solve` with `optimize_with_guessed_weights`: before the
+loop a given-weights model may have produced a decomposition with `g` routes (`given = some g`); at
+iteration `k = g` that ready-made model is taken instead of solving the k-model -/
+def givenLoop (σ : Nat → Status) (given : Option Nat) : Nat → Nat → List (Nat × Status) → Outcome
+  | 0, _, acc => ⟨acc, none⟩
+  | n+1, k, acc =>
+    if given = some k then ⟨acc, some k⟩ else
+    match σ k with
+    | .optimal => ⟨acc ++ [(k, .optimal)], some k⟩
+    | .infeasible => givenLoop σ given n (k+1) (acc ++ [(k, .infeasible)])
+    | .other => ⟨acc ++ [(k, .other)], none⟩
+
+def givenSearch (σ : Nat → Status) (given : Option Nat) (lo hi : Nat) : Outcome :=
+  givenLoop σ given (hi - lo) lo []
+
 /-! ### NumPathsOptimization -/
 
 structure NpoCfg where
